@@ -41,6 +41,13 @@ def run(c):
         c.r1("store-%s-counts-tx" % m, S + m, S + "enter_tx", sink="re:heed::.*Env::%s$" % txn, via=2,
              desc="Store::%s registers with the open-transaction counter before opening the transaction" % m)
         c.never("store-%s-no-write-txn" % m, S + m, None, "re:heed::.*Env::(write_txn|nested_write_txn)$|heed::txn::RwTxn::nested_read_txn$")
+    # the registration lives as long as the transaction: the TxCounter guard is still alive wherever the read transaction is used
+    c.alive_at("store-get_ser-counter-spans-read", S + "get_ser", S + "enter_tx", S + "get_with",
+               desc="Store::get_ser: the open-transaction registration (TxCounter) is alive while the read transaction is used (get_with)")
+    c.alive_at("store-exists-counter-spans-read", S + "exists", S + "enter_tx", "re:heed::.*Database.*::get$",
+               desc="Store::exists: the open-transaction registration (TxCounter) is alive while the read transaction is used (Database::get)")
+    c.alive_at("store-iter-counter-moves-into-iterator", S + "iter", S + "enter_tx", L + "DatabaseIterator::new",
+               desc="Store::iter: the open-transaction registration (TxCounter) is handed to the iterator that owns the read transaction")
     c.r1("batch-counts-tx", B + "new", S + "enter_tx", sink="re:heed::.*Env::write_txn$", via=2)
     c.r1("batch-resize-check-first", S + "batch", S + "maybe_resize", sink=B + "new", via=2)
     # --- resize gate
